@@ -133,7 +133,7 @@ def on_probe(p, r, exc, acc):
         acc.sample(dict(r, shown=got))
 
 
-TB_POSITIONS = ["expression", "code-block", "control-line", "def-body", "call-body"]
+TB_POSITIONS = ["expression", "code-block", "control-line", "def-body", "call-body", "call-body-of-a-def-in-another-template"]
 TB_SOURCES = ["string", "string-with-uri", "file", "lookup", "module-file", "module-file-reload", "module-file-after-edit", "module-directory-through-symlink", "lookup-through-symlink"]
 
 
